@@ -21,6 +21,9 @@
        (a start-up-checked mirror of its first members), the SILK state, the packet and what a real decoder made of it. */
 #include "hx_common.h"
 #include <math.h>
+#include <unistd.h>
+#include <sys/types.h>
+#include <sys/wait.h>
 #include "opus.h"
 #include "opus_private.h"
 #include "celt/entenc.h"
@@ -168,9 +171,18 @@ static void d_call(int kind, int pf, int nblk)
 
 static void d_check(void)
 {
-   silk_EncControlStruct c = CT; int cin[NCT];
+   /* a build with assertions answers an illegal structure with celt_assert(0): the predicate is evaluated in a child
+      process; ret = the return value, or -999 when the child was killed by the assertion */
+   silk_EncControlStruct c = CT; int cin[NCT], ret = -998, status = 0; pid_t pid;
    ctl_vec(&c, cin);
-   js_open("ck"); js_arr_i("cin", cin, NCT); js_int("ret", check_control_input(&c)); js_close();
+   fflush(stdout);
+   pid = fork();
+   if (pid == 0) { int r; signal(SIGABRT, SIG_DFL); fclose(stderr); r = check_control_input(&c); _exit(r == 0 ? 0 : (-r) - 100); }
+   if (pid > 0 && waitpid(pid, &status, 0) == pid) {
+      if (WIFEXITED(status)) { int x = WEXITSTATUS(status); ret = x == 0 ? 0 : -(x + 100); }
+      else if (WIFSIGNALED(status)) ret = -999;
+   }
+   js_open("ck"); js_arr_i("cin", cin, NCT); js_int("ret", ret); js_close();
 }
 
 static void run_direct(char *line, int lineno)
